@@ -20,6 +20,7 @@ Keyspace model's result where the model covers the command.
 import concurrent.futures
 import json
 import os
+import random
 import re
 import urllib.parse
 
@@ -27,6 +28,8 @@ from . import common
 from .common import cfg_consts
 
 MAX_REPORTS = 12
+# namings used by the quick tier (the thorough tier uses all of them)
+QUICK_ROWS = ("plain", "quote", "blank", "ctrl", "crlf", "utf8", "bin", "html", "numlike", "nan", "jsonval", "jsonish")
 
 
 def tla_str(s):
@@ -171,10 +174,11 @@ def describe(rec, why):
     return "%s on %s [%s] cmd=%r: %s || replies: %s" % ("+".join(kinds), rec["ev"], rec["tag"], cmd, ", ".join(sorted(why))[:600], shown)
 
 
-def report_all(ctx, label, trace, rej):
+def report_all(ctx, label, trace, rej, beh=None):
     if not rej:
         return 0
     lines = open(trace).read().split("\n")
+    behs = [l for l in open(beh).read().split("\n") if l] if beh else []
     groups = {}
     for r in rej:
         rec = json.loads(lines[r["line"] - 1])
@@ -187,7 +191,8 @@ def report_all(ctx, label, trace, rej):
         text = describe(rec, why) + (" (%d lines in this class)" % len(items))
         if n < MAX_REPORTS or common.classify(ctx, text) is not None:
             common.report(ctx, "c17-%s-%s-%s" % (label, kinds.replace("+", "_"), re.sub(r"[^a-z0-9]+", "_", base)), text,
-                          {"kind": "reply-record", "record": rec, "why": sorted(why)})
+                          {"kind": "reply-record", "record": rec, "why": sorted(why),
+                           "behaviour": behs[rec["b"]] if 0 <= rec["b"] < len(behs) else None})
         n += 1
     return n
 
@@ -301,6 +306,7 @@ def keyspace_behaviours(ctx):
     lines = [l for l in open(beh1).read().split("\n") if l]
     lines = lines[::max(1, len(lines) // ctx.pick(250, 6000))]
     lines += [l for l in open(beh2).read().split("\n") if l]
+    random.Random(ctx.seed).shuffle(lines)       # long and short behaviours spread evenly over the lane groups
     open(beh, "w").write("\n".join(lines) + "\n")
     return beh, len(lines), r1["distinct"] + r2["generated"], n1 + r2["generated"]
 
@@ -308,14 +314,16 @@ def keyspace_behaviours(ctx):
 def run(ctx):
     if ctx.replay:
         return run_replay(ctx)
+    # TLC runs of this check are small: keep the JVM's collector from starting one thread per core
+    os.environ.setdefault("JAVA_TOOL_OPTIONS", "-XX:ParallelGCThreads=2")
     tab = table(ctx)
-    rows = tab["rows"]
+    rows = [r for r in tab["rows"] if ctx.pick(r in QUICK_ROWS, True)]
     insts = [i for i in tab["instances"] if ctx.pick(not i["thorough"], True)]
     ctx.log("command table of %s: %d commands, %d instances, %d namings, %d lanes" %
             (common.REPO, len(tab["commands"]), len(insts), len(rows), len(tab["lanes"])))
     gen, cells, ncells = generate(ctx, tab, rows, ctx.pick(1, len(rows)), insts)
     ksbeh, nks, ksstates, kstrans = keyspace_behaviours(ctx)
-    sim, chbeh, nchains = chains(ctx, rows, insts, ctx.pick(72, 2000), ctx.pick(25, 40))
+    sim, chbeh, nchains = chains(ctx, rows, insts, ctx.pick(72, 3000), ctx.pick(25, 40))
 
     total = {"lines": 0, "checks": 0, "rejected": 0}
     stats = {}
@@ -330,12 +338,12 @@ def run(ctx):
             else:
                 stats.setdefault(k, {}).update({kk: stats.get(k, {}).get(kk, 0) + vv for kk, vv in v.items()})
         for gi, trace in enumerate(js["traces"]):
-            jobs.append((label, gi, trace, False))
+            jobs.append((label, gi, trace, False, beh))
             if gi == 0:
-                jobs.append((label, gi, trace, True))
+                jobs.append((label, gi, trace, True, beh))
 
     def work(job):
-        label, gi, trace, self_test = job
+        label, gi, trace, self_test, _ = job
         if not self_test:
             return job, judge(ctx, "%s%d" % (label, gi), trace, tab["tokens"]), None
         # the binding is real: a damaged copy of this trace must be rejected where it was damaged
@@ -343,9 +351,9 @@ def run(ctx):
         damaged = corrupt(trace, bad)
         return job, judge(ctx, "%s_selftest" % label, bad, tab["tokens"]), (bad, damaged)
 
-    with concurrent.futures.ThreadPoolExecutor(max_workers=ctx.pick(4, 6)) as ex:
+    with concurrent.futures.ThreadPoolExecutor(max_workers=6) as ex:
         results = list(ex.map(work, jobs))
-    for (label, gi, trace, self_test), (r, summ, rej), extra in results:
+    for (label, gi, trace, self_test, beh), (r, summ, rej), extra in results:
         if self_test:
             bad, damaged = extra
             got = set(x["line"] for x in rej)
@@ -360,7 +368,7 @@ def run(ctx):
         for k in total:
             total[k] += summ[k]
         ctx.log("ReplyTrace %s/%d: %d lines, %d comparisons, %d rejected" % (label, gi, summ["lines"], summ["checks"], summ["rejected"]))
-        report_all(ctx, label, trace, rej)
+        report_all(ctx, label, trace, rej, beh)
         if len(samples) < 4:
             for line in open(trace):
                 rec = json.loads(line)
@@ -413,15 +421,18 @@ def run_replay(ctx):
     p = json.load(open(ctx.replay))
     tab = table(ctx)
     rec = p["record"]
-    tag = rec["tag"].replace("~pre", "")
     beh = os.path.join(ctx.scratch, "replay.ndjson")
-    m = re.match(r"^(.*)/([a-z0-9]+)(?::([a-z]+)(\d+))?$", tag)
-    if rec["src"] == "ks" or not m:
-        raise common.Infra("replay of %s: re-run the check (the record is kept in the replay file)" % tag)
-    b = {"kind": "live" if rec["ev"] in ("ack", "push") else "table", "inst": m.group(1), "row": m.group(2),
-         "shape": m.group(3) or "valid", "p": int(m.group(4) or 0)}
-    open(beh, "w").write(json.dumps(b) + "\n")
+    if p.get("behaviour"):
+        # the whole behaviour the rejected line belongs to (a chain or a Keyspace behaviour sets up its state)
+        open(beh, "w").write(p["behaviour"] + "\n")
+    else:
+        m = re.match(r"^(.*)/([a-z0-9]+)(?::([a-z]+)(\d+))?(?:@\d+)?$", rec["tag"].replace("~pre", ""))
+        if not m:
+            raise common.Infra("replay of %s: no behaviour in the replay file" % rec["tag"])
+        b = {"kind": "live" if rec["ev"] in ("ack", "push") else "table", "inst": m.group(1), "row": m.group(2),
+             "shape": m.group(3) or "valid", "p": int(m.group(4) or 0)}
+        open(beh, "w").write(json.dumps(b) + "\n")
     js = execute(ctx, beh, "replay", 1)
     r, summ, rej = judge(ctx, "replay", js["traces"][0], tab["tokens"])
-    ctx.log("replay %s: %d lines, %d rejected" % (tag, summ["lines"], summ["rejected"]))
-    report_all(ctx, "replay", js["traces"][0], rej)
+    ctx.log("replay %s: %d lines, %d rejected" % (rec["tag"], summ["lines"], summ["rejected"]))
+    report_all(ctx, "replay", js["traces"][0], rej, beh)
